@@ -321,6 +321,9 @@ func Load(repo string, patterns []string) (*Ctx, error) {
 			switch fc.Kind {
 			case "extern":
 				// assumed contracts are scoped to the package whose contract file states them
+				if prev := ctx.contracts[fc.PkgPath+"=>"+fc.Key]; prev != nil {
+					cf.Errors = append(cf.Errors, fmt.Sprintf("%s: %s is declared twice in this contract file (the later declaration would silently replace the earlier one)", cf.Path, fc.Key))
+				}
 				ctx.contracts[fc.PkgPath+"=>"+fc.Key] = fc
 				ctx.ifaceContracts[fc.PkgPath+"=>"+fc.Key] = fc
 			case "func":
@@ -336,6 +339,9 @@ func Load(repo string, patterns []string) (*Ctx, error) {
 							}
 						}
 					}
+				}
+				if prev := ctx.contracts[fc.PkgPath+"."+fc.Key]; prev != nil {
+					cf.Errors = append(cf.Errors, fmt.Sprintf("%s: %s is declared twice in this contract file (the later declaration would silently replace the earlier one)", cf.Path, fc.Key))
 				}
 				ctx.contracts[fc.PkgPath+"."+fc.Key] = fc
 			}
